@@ -55,6 +55,7 @@ def enumerate_cases(tier, shard, nshards, seed):
     yield from em.single_edit_grid(gen.saturated_programs() + gen.SYN_PROGRAMS, tier, shard, nshards, seed, thin=5 if tier == 'quick' else 1)
     yield from em.single_edit_grid(gen.TRIVIA_PROGRAMS + gen.FSTRING_PROGRAMS, tier, shard, nshards, seed, n_expr=4, line_comments=True, cut=True, thin=2 if tier == 'quick' else 1)
     yield from em.slice_edit_grid(gen.TRIVIA_PROGRAMS, tier, shard, nshards, seed, optsets=({}, {'trivia': 'all'}, {'pep8space': False}), thin=2 if tier == 'quick' else 1)
+    yield from em.ancestor_two_step_grid(gen.TRIVIA_PROGRAMS + gen.SYN_PROGRAMS, tier, shard, nshards, seed, thin=2 if tier == 'quick' else 1)
 
 
 def _context_rich(src_lines, extent) -> bool:
